@@ -1,5 +1,758 @@
-//! C05 — not built yet.
+//! C05 — compiled lig/kern programs equal direct interpretation; loops detected exactly.
+//! Engine: BEX. DESIGN.md §3 C05. Oracle: reftex::ligkern (TeX §1034‑1040 main loop on raw
+//! instruction words, TFtoPL §88‑95 loop detector cross-checked by bounded simulation).
+
+use reftex::ligkern::{self as lk, Font, Node};
+use reftex::tfmraw::store_scaled;
+use serde_json::{json, Value};
+use std::collections::HashMap;
+use std::sync::Mutex;
+use tfm::ligkern::lang::{Instruction, Operation, PostLigOperation as P, Program};
+use tfm::ligkern::{CompiledProgram, RunItem, RunOptions};
+use tfm::{Char, FixWord};
+use vcore::{catch, Acc, Ctx, Level};
+
+// ------------------------------------------------------------------ the program space
+
+const LETTERS: [u8; 3] = [b'a', b'b', b'c'];
+/// op bytes of the eight ligature forms: =: =:| =:|> |=: |=:> |=:| |=:|> |=:|>>
+const FORMS: [u8; 8] = [0, 1, 5, 2, 6, 3, 7, 11];
+const FORM_NAMES: [&str; 8] = ["LIG", "LIG/", "LIG/>", "/LIG", "/LIG>", "/LIG/", "/LIG/>", "/LIG/>>"];
+/// kern table (fix_words): 0.1 and -0.25 design units; design size 10pt
+const KERNS: [i32; 2] = [104858, -262144];
+const DESIGN_SIZE: i32 = 10 << 20;
+const N_OPS: u64 = 2 + 8 * 3;
+const SIM_BUDGET: usize = 10_000;
+
+/// left: 0 = left boundary, 1 = a, 2 = b; right: 0 = a, 1 = b, 2 = right boundary; op < N_OPS
+#[derive(Clone, Copy, Debug, PartialEq, Eq)]
+struct Rule {
+    left: u8,
+    right: u8,
+    op: u8,
+}
+
+/// One raw instruction + where it is used.
+#[derive(Clone, Copy, Debug, PartialEq, Eq)]
+struct Raw {
+    w: lk::Word,
+}
+
+#[derive(Clone, Debug)]
+struct Prog {
+    words: Vec<lk::Word>,
+    /// (character, index of its first instruction)
+    starts: Vec<(u8, usize)>,
+    lb_start: Option<usize>,
+    rbc: Option<u8>,
+}
+
+fn op_bytes(op: u8) -> (u8, u8) {
+    match op {
+        0 => (128, 0),
+        1 => (128, 1),
+        _ => {
+            let k = op - 2;
+            (FORMS[(k / 3) as usize], LETTERS[(k % 3) as usize])
+        }
+    }
+}
+fn describe_op(op: u8) -> String {
+    match op {
+        0 => "KRN#0".into(),
+        1 => "KRN#1".into(),
+        _ => format!("{} {}", FORM_NAMES[((op - 2) / 3) as usize], LETTERS[((op - 2) % 3) as usize] as char),
+    }
+}
+fn describe_rules(rules: &[Rule], rbc: Option<u8>) -> String {
+    let l = |x: u8| ["|", "a", "b"][x as usize];
+    let r = |x: u8| ["a", "b", "|"][x as usize];
+    let mut s: Vec<String> = rules.iter().map(|q| format!("{}{} -> {}", l(q.left), r(q.right), describe_op(q.op))).collect();
+    s.push(format!("boundarychar={}", rbc.map(|c| (c as char).to_string()).unwrap_or("none".into())));
+    s.join("; ")
+}
+
+fn right_code(r: u8, rbc: Option<u8>) -> Option<u8> {
+    match r {
+        0 => Some(b'a'),
+        1 => Some(b'b'),
+        _ => rbc,
+    }
+}
+
+/// Layouts of the same rules as instruction chains.
+#[derive(Clone, Copy, Debug, PartialEq, Eq)]
+enum Layout {
+    /// one chain per left character, consecutive instructions, STOP on the last
+    Consecutive,
+    /// 300 unreachable instructions in front: every entry point is > 255
+    Padded,
+    /// a foreign (unreachable) instruction after every instruction of a chain, skipped with SKIP 1
+    SkipForeign,
+    /// no STOP between the chains: a chain falls through into the chains laid out after it
+    FallThrough,
+    /// additionally character c enters every chain at its last instruction (shared tail)
+    SharedTail,
+    /// a word with skip byte 255 (unconditional stop / restart word) as *second* word of every
+    /// chain, its next_char equal to that of the instruction it displaces
+    StopWord,
+}
+const LAYOUTS: [Layout; 6] = [Layout::Consecutive, Layout::Padded, Layout::SkipForeign, Layout::FallThrough, Layout::SharedTail, Layout::StopWord];
+
+fn build(rules: &[Rule], rbc: Option<u8>, layout: Layout) -> Option<Prog> {
+    let mut words: Vec<lk::Word> = vec![];
+    let mut starts = vec![];
+    let mut lb_start = None;
+    if layout == Layout::Padded {
+        for i in 0..300u32 {
+            // unreachable ligature instructions that would change every result if they were reached
+            words.push([if i % 7 == 0 { 128 } else { 0 }, LETTERS[(i % 3) as usize], 0, b'c']);
+        }
+    }
+    let mut lefts: Vec<u8> = rules.iter().map(|r| r.left).collect();
+    lefts.sort();
+    lefts.dedup();
+    let n_lefts = lefts.len();
+    for (li, l) in lefts.iter().enumerate() {
+        let start = words.len();
+        match l {
+            0 => lb_start = Some(start),
+            1 => starts.push((b'a', start)),
+            _ => starts.push((b'b', start)),
+        }
+        let rs: Vec<&Rule> = rules.iter().filter(|r| r.left == *l).collect();
+        for (i, r) in rs.iter().enumerate() {
+            let next = right_code(r.right, rbc)?;
+            let (op, rem) = op_bytes(r.op);
+            let last = i + 1 == rs.len();
+            let mut skip = if last { 128 } else { 0 };
+            match layout {
+                Layout::SkipForeign => {
+                    if !last {
+                        skip = 1;
+                    }
+                    words.push([skip, next, op, rem]);
+                    // the foreign instruction: same right character, a different effect
+                    words.push([128, right_code(rs[(i + 1) % rs.len()].right, rbc)?, 0, b'c']);
+                    continue;
+                }
+                Layout::FallThrough => {
+                    if last && li + 1 < n_lefts {
+                        skip = 0;
+                    }
+                }
+                Layout::StopWord => {
+                    words.push([if i == 0 { 0 } else { skip }, next, op, rem]);
+                    if i == 0 {
+                        // displaces the second rule of the chain (or, for a one-rule chain, a pair
+                        // that has no rule): TeX never executes it and stops there (§1039)
+                        let nc = if rs.len() > 1 { right_code(rs[1].right, rbc)? } else { b'b' };
+                        words.push([255, nc, 0, b'c']);
+                    }
+                    continue;
+                }
+                _ => {}
+            }
+            words.push([skip, next, op, rem]);
+        }
+        if layout == Layout::SharedTail {
+            // c shares the tail of the first chain only (one entry point per character)
+            if li == 0 {
+                starts.push((b'c', words.len() - 1));
+            }
+        }
+    }
+    Some(Prog { words, starts, lb_start, rbc })
+}
+
+fn model_font(p: &Prog) -> Font {
+    Font::new(p.words.clone(), &p.starts, p.rbc, p.lb_start)
+}
+
+/// The same instructions as repository types, word by word (the inverse of deserialize.rs's reading
+/// of a lig/kern word). Kern #0 is given by value, kern #1 by index into the kern table.
+fn to_program(p: &Prog) -> (Program, HashMap<Char, u16>, Vec<FixWord>) {
+    let instructions = p
+        .words
+        .iter()
+        .map(|w| {
+            let [skip, next, op, rem] = *w;
+            if skip > 128 {
+                return Instruction { next_instruction: None, right_char: Char(next), operation: Operation::EntrypointRedirect(u16::from_be_bytes([op, rem]), true) };
+            }
+            let operation = if op >= 128 {
+                let idx = 256 * (op as u16 - 128) + rem as u16;
+                if idx == 0 {
+                    Operation::Kern(FixWord(KERNS[0]))
+                } else {
+                    Operation::KernAtIndex(idx)
+                }
+            } else {
+                let post = match op {
+                    0 => P::RetainNeitherMoveToInserted,
+                    1 => P::RetainRightMoveToInserted,
+                    5 => P::RetainRightMoveToRight,
+                    2 => P::RetainLeftMoveNowhere,
+                    6 => P::RetainLeftMoveToInserted,
+                    3 => P::RetainBothMoveNowhere,
+                    7 => P::RetainBothMoveToInserted,
+                    11 => P::RetainBothMoveToRight,
+                    _ => unreachable!(),
+                };
+                Operation::Ligature { char_to_insert: Char(rem), post_lig_operation: post, post_lig_tag_invalid: false }
+            };
+            Instruction { next_instruction: if skip < 128 { Some(skip) } else { None }, right_char: Char(next), operation }
+        })
+        .collect();
+    let eps = p.starts.iter().map(|(c, s)| (Char(*c), *s as u16)).collect();
+    let prog = Program { instructions, left_boundary_char_entrypoint: p.lb_start.map(|s| s as u16), right_boundary_char: p.rbc.map(Char), passthrough: Default::default() };
+    (prog, eps, KERNS.iter().map(|k| FixWord(*k)).collect())
+}
+
+// ------------------------------------------------------------------ enumeration of rule sets
+
+struct Space {
+    /// combos[k] = all k-subsets of the 9 (left,right) slots in lexicographic order
+    combos: Vec<Vec<Vec<u8>>>,
+    /// offsets[k] = index of the first set with k rules
+    offsets: Vec<u64>,
+    max_rules: usize,
+}
+impl Space {
+    fn new(max_rules: usize) -> Space {
+        let mut combos = vec![];
+        for k in 0..=max_rules {
+            let mut v = vec![];
+            fn rec(start: u8, k: usize, cur: &mut Vec<u8>, out: &mut Vec<Vec<u8>>) {
+                if cur.len() == k {
+                    out.push(cur.clone());
+                    return;
+                }
+                for s in start..9 {
+                    cur.push(s);
+                    rec(s + 1, k, cur, out);
+                    cur.pop();
+                }
+            }
+            rec(0, k, &mut vec![], &mut v);
+            combos.push(v);
+        }
+        let mut offsets = vec![0u64];
+        for k in 0..=max_rules {
+            let n = combos[k].len() as u64 * N_OPS.pow(k as u32);
+            offsets.push(offsets[k] + n);
+        }
+        Space { combos, offsets, max_rules }
+    }
+    fn len(&self) -> u64 {
+        self.offsets[self.max_rules + 1]
+    }
+    fn rules(&self, idx: u64) -> Vec<Rule> {
+        let k = (0..=self.max_rules).find(|k| idx < self.offsets[k + 1]).expect("index in range");
+        let r = idx - self.offsets[k];
+        let nops = N_OPS.pow(k as u32);
+        let combo = &self.combos[k][(r / nops) as usize];
+        let ops = vcore::digits(r % nops, &vec![N_OPS; k]);
+        combo.iter().zip(ops).map(|(slot, op)| Rule { left: slot / 3, right: slot % 3, op: op as u8 }).collect()
+    }
+}
+
+fn words_upto(maxlen: usize) -> Vec<Vec<u8>> {
+    let mut out = vec![];
+    for len in 1..=maxlen {
+        for i in 0..(1u32 << len) {
+            out.push((0..len).map(|j| if (i >> (len - 1 - j)) & 1 == 0 { b'a' } else { b'b' }).collect());
+        }
+    }
+    out
+}
+
+/// (left boundary enabled, right_boundary_override)
+const MODES: [(bool, Option<u8>); 3] = [(true, None), (false, None), (true, Some(b'b'))];
+
+// ------------------------------------------------------------------ one program
+
+#[derive(Clone, Debug, PartialEq)]
+enum Out {
+    G(u8),
+    K(i64),
+}
+
+struct ImplRun {
+    seq: Vec<Out>,
+    spelled: Vec<u8>,
+    is_lig: Vec<bool>,
+    nodes: Vec<Node>,
+    kerns_at: Vec<i64>,
+}
+
+fn impl_run(cp: &CompiledProgram, word: &[u8], lb: bool, ovr: Option<u8>) -> Result<ImplRun, vcore::Panic> {
+    catch(|| {
+        let mut r = ImplRun { seq: vec![], spelled: vec![], is_lig: vec![], nodes: vec![], kerns_at: vec![] };
+        let opts = RunOptions { disable_left_boundary: !lb, right_boundary_override: ovr.map(|c| c as char) };
+        for it in cp.run_with_options(word.iter().map(|c| *c as char), opts).take(10_000) {
+            match it {
+                RunItem::Char(c) => {
+                    r.seq.push(Out::G(c as u8));
+                    r.spelled.push(c as u8);
+                    r.is_lig.push(false);
+                    r.nodes.push(Node::Char(c as u8));
+                }
+                RunItem::Kern(k) => {
+                    r.seq.push(Out::K(k.0 as i64));
+                    r.kerns_at.push(k.0 as i64);
+                    r.nodes.push(Node::Kern(usize::MAX));
+                }
+                RunItem::Ligature(l) => {
+                    r.seq.push(Out::G(l.c as u8));
+                    r.spelled.extend(l.original.chars().map(|c| c as u8));
+                    r.is_lig.push(true);
+                    r.nodes.push(Node::Lig { c: l.c as u8, orig: l.original.chars().map(|c| c as u8).collect(), left: l.includes_left_boundary, right: l.includes_right_boundary });
+                }
+            }
+        }
+        r
+    })
+}
+
+fn scaled_kern(idx: usize) -> i64 {
+    store_scaled(KERNS[idx], (DESIGN_SIZE / 16) as i64).expect("kern in range")
+}
+
+fn render_nodes(n: &[Node]) -> String {
+    n.iter()
+        .map(|x| match x {
+            Node::Char(c) => format!("{}", *c as char),
+            Node::Kern(k) if *k == usize::MAX => "kern".into(),
+            Node::Kern(k) => format!("kern#{k}"),
+            Node::Lig { c, orig, left, right } => format!("{}(lig {}{}{})", *c as char, if *left { "|" } else { "" }, String::from_utf8_lossy(orig), if *right { "|" } else { "" }),
+        })
+        .collect::<Vec<_>>()
+        .join(" ")
+}
+
+struct Shared {
+    machinery: Mutex<Vec<String>>,
+}
+
+fn case_json(rules: &[Rule], rbc: Option<u8>, layout: Layout, extra: Value) -> Value {
+    let mut v = json!({
+        "rules": rules.iter().map(|r| vec![r.left, r.right, r.op]).collect::<Vec<_>>(),
+        "rbc": rbc,
+        "layout": LAYOUTS.iter().position(|l| *l == layout),
+        "text": describe_rules(rules, rbc),
+        "layout_name": format!("{layout:?}"),
+    });
+    if let (Some(a), Some(b)) = (v.as_object_mut(), extra.as_object()) {
+        for (k, x) in b {
+            a.insert(k.clone(), x.clone());
+        }
+    }
+    v
+}
+
+/// Check one program (loop verdict) and, if it is loop-free, every word in every mode.
+fn check_program(idx: u64, rules: &[Rule], rbc: Option<u8>, layout: Layout, words: &[Vec<u8>], only: Option<(&[u8], bool, Option<u8>)>, acc: &mut Acc, sh: &Shared) {
+    let Some(p) = build(rules, rbc, layout) else {
+        acc.skipped += 1; // a right-boundary rule without a boundary character cannot be written down
+        return;
+    };
+    let font = model_font(&p);
+    // ---- oracle: loops
+    let knuth = lk::knuth_loop(&font);
+    let sim = lk::looping_pairs(&font, SIM_BUDGET);
+    if knuth.is_some() != !sim.is_empty() {
+        sh.machinery.lock().unwrap().push(format!("loop oracles disagree on [{}] layout {layout:?}: TFtoPL f(x,y) says {knuth:?}, simulation says {sim:?}", describe_rules(rules, rbc)));
+        return;
+    }
+    let oracle_loop = !sim.is_empty();
+    // ---- implementation: compile
+    let (prog, eps, kerns) = to_program(&p);
+    let compiled = catch(|| CompiledProgram::compile(&prog, FixWord(DESIGN_SIZE), &kerns, eps.clone()));
+    acc.eval();
+    let (cp, errs) = match compiled {
+        Ok(x) => x,
+        Err(pn) => {
+            acc.fail(idx, case_json(rules, rbc, layout, json!({"kind": "compile"})), "compile returns", pn.describe(), "compile panicked");
+            return;
+        }
+    };
+    if oracle_loop {
+        acc.nontrivial();
+        acc.count("loop_programs");
+        if sim.iter().all(|(x, _)| *x == 256) {
+            acc.count("loop_only_through_left_boundary");
+        }
+        if let Some(b) = p.rbc {
+            // loops whose every starting pair has the boundary character as right character
+            if sim.iter().all(|(_, y)| *y == b) {
+                acc.count("loop_only_with_boundarychar_on_the_right");
+            }
+        }
+    }
+    if oracle_loop != !errs.is_empty() {
+        acc.fail(
+            idx,
+            case_json(rules, rbc, layout, json!({"kind": "compile"})),
+            if oracle_loop { format!("an infinite loop is reported (pairs that never terminate: {sim:?}, 256 = left boundary)") } else { "no infinite loop is reported: every pair terminates".to_string() },
+            format!("{errs:?}"),
+            "loop verdict differs from direct interpretation",
+        );
+        acc.class("loop verdict differs");
+        return;
+    }
+    if oracle_loop {
+        // every reported pair must itself be a pair that never terminates
+        for e in &errs {
+            let x = e.starting_pair.0.map(|c| c.0 as i32).unwrap_or(256);
+            let y = e.starting_pair.1 .0;
+            if !sim.contains(&(x, y)) {
+                acc.fail(idx, case_json(rules, rbc, layout, json!({"kind": "compile"})), format!("reported starting pairs are among the non-terminating pairs {sim:?}"), format!("{errs:?}"), "a pair that terminates is reported as the start of an infinite loop");
+                acc.class("loop: reported pair terminates");
+                return;
+            }
+        }
+        acc.class("loop reported");
+        return;
+    }
+    // ---- loop-free: every word, every mode
+    let run_list: Vec<(&[u8], bool, Option<u8>)> = match only {
+        Some(o) => vec![o],
+        None => words.iter().flat_map(|w| MODES.iter().map(move |(lb, ovr)| (w.as_slice(), *lb, *ovr))).collect(),
+    };
+    for (w, lb, ovr) in run_list {
+        acc.eval();
+        let bchar = ovr.or(font.bchar);
+        let Some(m) = lk::run(&font, w, lb, bchar, SIM_BUDGET) else {
+            sh.machinery.lock().unwrap().push(format!("model run exceeded its budget on a loop-free program [{}] word {:?}", describe_rules(rules, rbc), String::from_utf8_lossy(w)));
+            return;
+        };
+        let case = || case_json(rules, rbc, layout, json!({"kind": "run", "word": String::from_utf8_lossy(w), "lb": lb, "override": ovr}));
+        // vacuity counters, from the model's trace only
+        if !m.fired.is_empty() {
+            acc.nontrivial();
+        }
+        {
+            let mut seen: Vec<usize> = vec![];
+            let mut re = false;
+            for f in &m.fired {
+                if seen.contains(&f.k) {
+                    re = true;
+                }
+                seen.push(f.k);
+            }
+            if re {
+                acc.count("instruction_fired_twice_in_one_word");
+            }
+            if m.fired.iter().any(|f| !f.kern && f.on_ligature) {
+                acc.count("ligature_of_a_ligature");
+            }
+            if m.fired.iter().any(|f| f.left_boundary) {
+                acc.count("left_boundary_rule_fired");
+            }
+            if m.fired.iter().any(|f| f.right_boundary) {
+                acc.count("right_boundary_rule_fired");
+            }
+            if m.fired.iter().any(|f| f.k > 255) {
+                acc.count("instruction_beyond_255_fired");
+            }
+        }
+        let want: Vec<Out> = m
+            .nodes
+            .iter()
+            .map(|n| match n {
+                Node::Char(c) => Out::G(*c),
+                Node::Lig { c, .. } => Out::G(*c),
+                Node::Kern(k) => Out::K(scaled_kern(*k)),
+            })
+            .collect();
+        let got = match impl_run(&cp, w, lb, ovr) {
+            Ok(g) => g,
+            Err(pn) => {
+                acc.fail(idx, case(), render_nodes(&m.nodes), pn.describe(), "run panicked");
+                acc.class("run panicked");
+                continue;
+            }
+        };
+        if got.seq != want {
+            acc.fail(idx, case(), format!("{} = {:?}", render_nodes(&m.nodes), want), format!("{} = {:?}", render_nodes(&got.nodes), got.seq), "characters / ligature glyphs / kerns differ from direct interpretation");
+            acc.class("sequence differs");
+            continue;
+        }
+        if got.spelled != w {
+            acc.fail(idx, case(), format!("characters + ligature originals spell {:?}", String::from_utf8_lossy(w)), format!("{} spells {:?}", render_nodes(&got.nodes), String::from_utf8_lossy(&got.spelled)), "recorded characters do not spell the word");
+            acc.class("spelling differs");
+            continue;
+        }
+        // a glyph that TeX holds in a ligature node must be reported as a ligature
+        let model_lig: Vec<bool> = m.nodes.iter().filter(|n| !matches!(n, Node::Kern(_))).map(|n| matches!(n, Node::Lig { .. })).collect();
+        if model_lig.iter().zip(got.is_lig.iter()).any(|(m, g)| *m && !*g) {
+            acc.fail(idx, case(), render_nodes(&m.nodes), render_nodes(&got.nodes), "a glyph produced by a ligature command is reported as a plain character");
+            acc.class("ligature reported as character");
+            continue;
+        }
+        // informational: exact agreement with TeX's node bookkeeping (originals per node, boundary flags)
+        let same_nodes = m.nodes.len() == got.nodes.len()
+            && m.nodes.iter().zip(got.nodes.iter()).all(|(a, b)| match (a, b) {
+                (Node::Kern(_), Node::Kern(_)) => true,
+                _ => a == b,
+            });
+        if same_nodes {
+            acc.class(&format!("agree, nodes identical to TeX's, {} command(s)", m.fired.len().min(6)));
+        } else {
+            acc.count("info_node_bookkeeping_differs_from_tex");
+            let flags_only = m.nodes.len() == got.nodes.len()
+                && m.nodes.iter().zip(got.nodes.iter()).all(|(a, b)| match (a, b) {
+                    (Node::Lig { c, orig, .. }, Node::Lig { c: c2, orig: o2, .. }) => c == c2 && orig == o2,
+                    (Node::Kern(_), Node::Kern(_)) => true,
+                    _ => a == b,
+                });
+            acc.class(if flags_only { "agree, boundary flags placed differently from TeX" } else { "agree, originals distributed differently from TeX" });
+            acc.sample(idx, || json!({"bookkeeping_difference": {"case": case(), "tex": render_nodes(&m.nodes), "crate": render_nodes(&got.nodes)}}));
+        }
+    }
+}
+
+// ------------------------------------------------------------------ model self-validation
+
+/// Property-list style program text: `L x` label (x = | for the boundary), `S` stop, otherwise
+/// `<form> <right> <char>` or `K <right> <kern index>`. Boundary character R, as in ligaroo.plst.
+fn pl_program(src: &str) -> Font {
+    let mut words: Vec<lk::Word> = vec![];
+    let mut starts = vec![];
+    let mut lb = None;
+    for item in src.split(';').map(|s| s.trim()).filter(|s| !s.is_empty()) {
+        let t: Vec<&str> = item.split_whitespace().collect();
+        match t[0] {
+            "L" => {
+                if t[1] == "|" {
+                    lb = Some(words.len());
+                } else {
+                    starts.push((t[1].as_bytes()[0], words.len()));
+                }
+            }
+            "S" => {
+                if let Some(w) = words.last_mut() {
+                    w[0] = 128;
+                }
+            }
+            "K" => words.push([0, t[1].as_bytes()[0], 128, t[2].parse().unwrap()]),
+            f => {
+                let op = FORMS[FORM_NAMES.iter().position(|n| *n == f).unwrap_or_else(|| panic!("form {f}"))];
+                words.push([0, t[1].as_bytes()[0], op, t[2].as_bytes()[0]]);
+            }
+        }
+    }
+    if let Some(w) = words.last_mut() {
+        w[0] = 128;
+    }
+    Font::new(words, &starts, Some(b'R'), lb)
+}
+
+/// Expected nodes: `A` character, `k0` kern, `1(AB)` ligature with originals, `|` inside the
+/// parentheses marks the boundary flags, e.g. `1(|A)` `B(|)` – the notation of TeX's \showbox.
+fn parse_nodes(s: &str) -> Vec<Node> {
+    s.split_whitespace()
+        .map(|t| {
+            if let Some(k) = t.strip_prefix('k') {
+                return Node::Kern(k.parse().unwrap());
+            }
+            match t.split_once('(') {
+                None => Node::Char(t.as_bytes()[0]),
+                Some((c, rest)) => {
+                    let inner = rest.trim_end_matches(')');
+                    // a lone | is ambiguous in \showbox; the table writes "<|" / "|>" for it
+                    let (left, inner) = match inner.strip_prefix("<|") {
+                        Some(r) => (true, r),
+                        None => (false, inner),
+                    };
+                    let (right, inner) = match inner.strip_suffix("|>") {
+                        Some(r) => (true, r),
+                        None => (false, inner),
+                    };
+                    Node::Lig { c: c.as_bytes()[0], orig: inner.as_bytes().to_vec(), left, right }
+                }
+            }
+        })
+        .collect()
+}
+
+/// Expectations copied from crates/tfm/src/ligkern/mod.rs `tests!` (each verified against a real TeX
+/// by the repository author under TEXCRAFT_VERIFY=tex). (test name, program, word, nodes)
+const TEX_RECORDED: &[(&str, &str, &str, &str)] = &[
+    ("single_lig_1", "L A; LIG B 1; K 1 0; S; L 1; K B 1; S", "AB", "1(AB)"),
+    ("single_lig_2", "L A; /LIG B 1; K 1 0; S; L 1; K B 1; S", "AB", "A k0 1(B)"),
+    ("single_lig_3", "L A; /LIG> B 1; K 1 0; S; L 1; K B 1; S", "AB", "A 1(B)"),
+    ("single_lig_4", "L A; LIG/ B 1; K 1 0; S; L 1; K B 1; S", "AB", "1(A) k1 B"),
+    ("single_lig_5", "L A; LIG/> B 1; K 1 0; S; L 1; K B 1; S", "AB", "1(A) B"),
+    ("single_lig_6", "L A; /LIG/ B 1; K 1 0; S; L 1; K B 1; S", "AB", "A k0 1() k1 B"),
+    ("single_lig_7", "L A; /LIG/> B 1; K 1 0; S; L 1; K B 1; S", "AB", "A 1() k1 B"),
+    ("single_lig_8", "L A; /LIG/>> B 1; K 1 0; S; L 1; K B 1; S", "AB", "A 1() B"),
+    ("no_op_lig", "L A; LIG/> B A; S", "AB", "A(A) B"),
+    ("multiple_lig_1", "L A; LIG B 1; L 1; LIG C 2; S", "ABC", "2(ABC)"),
+    ("multiple_lig_2", "L A; /LIG/ B 1; L 1; LIG B 2; S", "AB", "A 2(B)"),
+    ("multiple_lig_3", "L A; LIG/ A 1; S", "AAAAA", "1(A) 1(A) 1(A) 1(A) A"),
+    ("multiple_lig_4", "L A; LIG A A; S", "AAAAAA", "A(AAAAAA)"),
+    ("multiple_lig_5", "L A; /LIG B 1; LIG/ 1 2; S", "AB", "2(A) 1(B)"),
+    ("multiple_lig_6", "L A; /LIG B 1; LIG/ 1 2; L 2; LIG 1 3; S", "AB", "3(AB)"),
+    ("multiple_lig_7", "L A; LIG B 1; S; L 1; /LIG/>> C 2; S", "ABC", "1(AB) 2() C"),
+    ("kern_after_lig_1", "L A; LIG B 1; S; L 1; K C 0", "ABC", "1(AB) k0 C"),
+    ("kern_after_lig_2", "L A; LIG B 1; S; L 1; K A 0", "ABAB", "1(AB) k0 1(AB)"),
+    ("left_boundary_char_1", "L |; LIG A 1", "A", "1(<|A)"),
+    ("left_boundary_char_2", "L |; /LIG/ A 1; /LIG/ 1 2", "A", "2(<|) 1() A"),
+    ("left_boundary_char_3", "L |; /LIG/ A 1", "A", "1(<|) A"),
+    ("left_boundary_char_4", "L |; /LIG A 1", "A", "1(<|A)"),
+    ("left_boundary_char_5", "L |; /LIG> A 1", "A", "1(<|A)"),
+    ("left_boundary_char_6", "L |; LIG/ A 1", "A", "1(<|) A"),
+    ("left_boundary_char_7", "L |; LIG/> A 1", "A", "1(<|) A"),
+    ("left_boundary_char_8", "L |; /LIG/> A 1", "A", "1(<|) A"),
+    ("left_boundary_char_9", "L |; /LIG/>> A 1", "A", "1(<|) A"),
+    ("right_boundary_char_lig_1", "L A; LIG R 1; S", "A", "1(A|>)"),
+    ("right_boundary_char_lig_2", "L A; /LIG R B; S", "A", "A B(|>)"),
+    ("right_boundary_char_lig_3", "L A; /LIG> R B; S", "A", "A B(|>)"),
+    ("right_boundary_char_lig_4", "L A; /LIG/ R B; S", "A", "A B(|>)"),
+    ("right_boundary_char_lig_5", "L A; LIG/ R B; S", "A", "B(A|>)"),
+    ("right_boundary_char_lig_6", "L A; LIG/> R B; S", "A", "B(A|>)"),
+    ("right_boundary_char_lig_7", "L A; /LIG/> R B; S", "A", "A B(|>)"),
+    ("right_boundary_char_lig_8", "L A; /LIG/>> R B; S", "A", "A B(|>)"),
+    ("right_boundary_char_lig_9", "L A; LIG R B; L B; LIG R C; S", "A", "B(A|>)"),
+    ("right_boundary_char_lig_10", "L A; LIG/ R B; L B; LIG/ R C; S", "A", "C(A|>)"),
+    ("right_boundary_char_lig_11", "L A; LIG R B; L B; LIG/ R C; S", "A", "B(A|>)"),
+    ("right_boundary_char_lig_12", "L A; LIG/ R B; L B; LIG R C; S", "A", "C(A|>)"),
+    ("right_boundary_char_kern_1", "L A; K R 0; S", "A", "A k0"),
+    ("right_boundary_char_kern_2", "L A; LIG/ R B; L B; LIG/ R C; L C; K R 0; S", "A", "C(A|>) k0"),
+    ("right_boundary_char_kern_3", "L A; LIG B C; L C; K R 0; S", "AB", "C(AB) k0"),
+];
+
+/// Loop verdicts recorded from Knuth's programs: tftopl.web §88 examples and the repository's
+/// compiler.rs infinite-loop tests. (name, program, loops?)
+const LOOP_RECORDED: &[(&str, &str, bool)] = &[
+    // mod.rs module documentation / TFtoPL §88: (x,y) -> (z,y) -> (x,y)
+    ("doc_swap", "L x; LIG/ y z; S; L z; LIG/ y x; S", true),
+    // tftopl.web §88: "LIG/ x y x" style self loop: (A,B) /LIG/ inserting A keeps producing (A,A)?..
+    ("self_both", "L A; /LIG/ A A; S", true),
+    ("self_left_z", "L A; LIG/ B A; S", true),
+    ("self_right_z", "L A; /LIG B B; S", true),
+    ("move_right_ok", "L A; /LIG/>> A A; S", false),
+    ("lig_ok", "L A; LIG A A; S", false),
+    ("retain_right_moves_ok", "L A; LIG/> B A; S", false),
+];
+
+fn self_validate(ctx: &mut Ctx) {
+    for (name, prog, word, want) in TEX_RECORDED {
+        let font = pl_program(prog);
+        let got = lk::run(&font, word.as_bytes(), true, font.bchar, 1000).map(|r| r.nodes);
+        let want = parse_nodes(want);
+        if got.as_ref() != Some(&want) {
+            ctx.machinery_error(format!("model self-validation: ligkern test `{name}`: TeX recorded [{}], model gives [{}]", render_nodes(&want), got.map(|g| render_nodes(&g)).unwrap_or("<budget>".into())));
+        }
+    }
+    for (name, prog, want) in LOOP_RECORDED {
+        let font = pl_program(prog);
+        let k = lk::knuth_loop(&font).is_some();
+        let s = !lk::looping_pairs(&font, SIM_BUDGET).is_empty();
+        if k != *want || s != *want {
+            ctx.machinery_error(format!("model self-validation: loop case `{name}`: expected loop={want}, TFtoPL f(x,y) gives {k}, simulation gives {s}"));
+        }
+    }
+}
+
+// ------------------------------------------------------------------ main
+
+fn rbc_of(i: u64) -> Option<u8> {
+    [None, Some(b'c'), Some(b'a')][i as usize]
+}
+
 fn main() {
-    eprintln!("c05: check not built yet");
-    std::process::exit(2);
+    let mut ctx = Ctx::new("C05", Level::Exploration);
+    ctx.assume("every character of the alphabet exists in the font (no char_warning path; false_bchar = non_char, TeX §576)");
+    ctx.assume("how TeX distributes a ligature's original characters and boundary flags over several ligature nodes is not compared (node bookkeeping; only: same glyphs and kerns in the same order, recorded characters spell the word, and a glyph TeX holds in a ligature node is reported as a ligature); exact node agreement is counted as an outcome class");
+    ctx.assume("kern amounts are compared after scaling by the design size with TeX §571-572 store_scaled");
+    ctx.assume("words are run only on programs without an infinite loop; for looping programs the loop verdict and the reported pairs are checked");
+    self_validate(&mut ctx);
+    let sh = Shared { machinery: Mutex::new(vec![]) };
+    let max_rules = ctx.pick(2usize, 3usize);
+    let space = Space::new(max_rules);
+    let space2 = Space::new(2);
+    let words = words_upto(ctx.pick(4, 5));
+    let words_short = words_upto(4);
+
+    if let Some((_fam, case)) = ctx.replay_case() {
+        let mut acc = Acc::default();
+        let rules: Vec<Rule> = case["rules"].as_array().map(|a| a.iter().map(|r| Rule { left: r[0].as_u64().unwrap() as u8, right: r[1].as_u64().unwrap() as u8, op: r[2].as_u64().unwrap() as u8 }).collect()).unwrap_or_default();
+        let rbc = case["rbc"].as_u64().map(|c| c as u8);
+        let layout = LAYOUTS[case["layout"].as_u64().unwrap_or(0) as usize];
+        let word: Vec<u8> = case["word"].as_str().unwrap_or("").as_bytes().to_vec();
+        let only = if case["kind"] == "run" { Some((word.as_slice(), case["lb"].as_bool().unwrap_or(true), case["override"].as_u64().map(|c| c as u8))) } else { None };
+        check_program(0, &rules, rbc, layout, &words, only, &mut acc, &sh);
+        for m in sh.machinery.lock().unwrap().iter() {
+            eprintln!("MACHINERY-ERROR C05: {m}");
+        }
+        ctx.finish_replay(acc);
+    }
+
+    // F1: all rule sets, consecutive layout
+    {
+        let n = space.len() * 3;
+        let (sp, w, shr) = (&space, &words, &sh);
+        ctx.family(
+            "programs-consecutive",
+            &format!(
+                "every set of <= {max_rules} rules with distinct (left,right), left in {{boundary,a,b}}, right in {{a,b,boundary}}, op in {{2 kerns, 8 ligature forms x inserted a/b/c}}; boundarychar in {{none,c,a}}; one chain per left character; x every word over {{a,b}} of length 1..{} x 3 modes (left boundary on/off, right_boundary_override b)",
+                words.last().map(|w| w.len()).unwrap_or(0)
+            ),
+            n,
+            |i, acc| {
+                let rules = sp.rules(i / 3);
+                check_program(i, &rules, rbc_of(i % 3), Layout::Consecutive, w, None, acc, shr);
+            },
+        );
+    }
+    // F2: the same rule sets (<= 2 rules) in the other chain layouts, except the stop word
+    {
+        let nl = 4u64; // Padded, SkipForeign, FallThrough, SharedTail
+        let n = space2.len() * 3 * nl;
+        let (sp, w, shr) = (&space2, &words_short, &sh);
+        ctx.family(
+            "programs-layouts",
+            "every set of <= 2 rules x boundarychar x 4 chain layouts (300 unreachable instructions in front so that entry points exceed 255; SKIP 1 over a foreign instruction; chains falling through into the next chain; character c entering a chain at its last instruction) x every word of length 1..4 x 3 modes",
+            n,
+            |i, acc| {
+                let d = vcore::digits(i, &[sp.len(), 3, nl]);
+                let rules = sp.rules(d[0]);
+                check_program(i, &rules, rbc_of(d[1]), LAYOUTS[1 + d[2] as usize], w, None, acc, shr);
+            },
+        );
+    }
+    // F3: a word with skip byte > 128 inside a chain (TeX §1039 never executes it and stops there;
+    //     lang::Operation::EntrypointRedirect documents it as an unconditional stop)
+    {
+        let n = space2.len() * 3;
+        let (sp, w, shr) = (&space2, &words_short, &sh);
+        ctx.family(
+            "stop-word-in-chain",
+            "every set of <= 2 rules x boundarychar, with an unconditional-stop word (skip byte 255, op/remainder bytes that read as `LIG c`) as second word of every chain x every word of length 1..4 x 3 modes",
+            n,
+            |i, acc| {
+                let rules = sp.rules(i / 3);
+                if rules.is_empty() {
+                    acc.skipped += 1;
+                    return;
+                }
+                acc.count("stop_word_in_chain");
+                check_program(i, &rules, rbc_of(i % 3), Layout::StopWord, w, None, acc, shr);
+            },
+        );
+    }
+    for m in sh.machinery.lock().unwrap().iter().take(5) {
+        ctx.machinery_error(m.clone());
+    }
+    ctx.require("loop_programs", "programs with an infinite loop");
+    ctx.require("loop_only_through_left_boundary", "programs whose every non-terminating pair starts at the left boundary");
+    ctx.require("instruction_fired_twice_in_one_word", "a rule re-entered within one word (on its own output or at a later position)");
+    ctx.require("ligature_of_a_ligature", "a ligature command fired on a character that was itself inserted by a ligature command");
+    ctx.require("left_boundary_rule_fired", "a left boundary rule fired");
+    ctx.require("right_boundary_rule_fired", "a rule fired against the right boundary character");
+    ctx.require("instruction_beyond_255_fired", "an instruction at an index above 255 fired");
+    ctx.finish("one evaluation per compiled program (loop verdict) and per (loop-free program, word, mode) run; non-trivial = the program has a loop, resp. the word triggers at least one lig/kern command in the reference interpreter");
 }
